@@ -1333,8 +1333,10 @@ func (ps *PushContext) getExportedDestinationRuleFromNamespace(owningNamespace s
 			out := make([]*ConsolidatedDestRule, 0, len(drs))
 			for _, mdr := range drs {
 				// Check if the dest rule for this host is actually exported to the proxy's (client) namespace
+				// "." stands for the rule's own namespace: it only matches a client of that same namespace
 				exportToSet := mdr.exportTo
-				if exportToSet.IsEmpty() || exportToSet.Contains(visibility.Public) || exportToSet.Contains(visibility.Instance(clientNamespace)) {
+				if exportToSet.IsEmpty() || exportToSet.Contains(visibility.Public) || exportToSet.Contains(visibility.Instance(clientNamespace)) ||
+					(owningNamespace == clientNamespace && exportToSet.Contains(visibility.Private)) {
 					out = append(out, mdr)
 				}
 			}
